@@ -375,3 +375,22 @@ prop(
     essential=dict(quick=["destroy-on-running-child", "destroy-on-exited-unreaped", "destroy-on-reaped", "default-policy", "via-cxx-destructor", "policy-waits-unbounded", "policy-times-out", "state:failed-start", "state:fork-child-side", "state:not-started", "state:NULL", "with-deadline"]),
     assumptions=["in the forked-child state only destroy is legal (reproc.h); nothing more is demanded of it than NULL, no signal, no wait"],
 )
+
+prop(
+    "C17",
+    title="Nonblocking mode never blocks; blocking calls wait only for the child",
+    level="exploration",
+    engine="vtime",
+    campaigns=[dict(bin="C17", random=dict(quick=5000, thorough=100000))],
+    level_text=("Reads (stdout/stderr) and writes (stdin) with the pipe state constructed beforehand (empty, partly filled, full = exactly 64 KiB in page-sized writes, far side closed by the child or by its "
+                "exit), sizes 1 B - 1 MiB, nonblocking on and off, a child that is idle for ever, acts at scripted virtual times (writes, reads in page multiples, closes, exits) or is already gone; start-up "
+                "input of 0, 1, 4096, 65535, 65536, 65537 and 2^20 bytes with a child that reads at once, late or never. The virtual-time scheduler's blocking-episode log is the oracle: no episode and "
+                "O_NONBLOCK on the descriptor for nonblocking calls, results matching the real pipe state; no episode inside reproc_start; blocking calls end exactly at the child's action that provides "
+                "data / end-of-file / room for all bytes and never by themselves ('would block for ever' is a detected state)."),
+    level_note="Pipe capacity is the Linux default (64 KiB); room accounting is exact because all fills and child reads are page multiples.",
+    technique="property-based testing on the virtual-time engine (rapidcheck tape); blocking-episode invariant + pipe-state oracle",
+    rule=("tape -> scenario (read / write / start-up input), nonblocking, stream, pending bytes, far-side state, later child event and its time, sizes, prefill, the child's read schedule, input size and reader. "
+          "Non-trivial: the pipe was empty-and-open (read) or lacked room (write) at the call, i.e. the call would have blocked in the other mode, or start-up input at or above the capacity. Distinct: hash of these."),
+    essential=dict(quick=["read:blocking", "read:nonblocking", "write:blocking", "write:nonblocking", "startup-input:blocking", "startup-input:nonblocking", "pipe-empty-and-open", "pipe-full-and-open", "far-side-closed", "waited-for-child", "blocks-forever-expected", "input-at-or-above-capacity", "input-delivered", "input-start-failed"]),
+    assumptions=["SIGPIPE is ignored in the parent (README, Gotchas)", "read size 0 is C02's subject"],
+)
